@@ -307,6 +307,25 @@ func (h *heap) compareNode(n *mnode) error {
 				return errf("list#%d[%d]: Slice()[i] = %s, model %v", n.id, i, showAny(sl[i]), e)
 			}
 		}
+		// lookups agree with a scan of the model for the first, the middle and the last element
+		if cnt := len(n.elems); cnt > 0 {
+			for _, at0 := range [3]int{cnt - 1, 0, cnt / 2} {
+				e := n.elems[at0]
+				want := -1
+				for i, x := range n.elems {
+					if x.eq(e) {
+						want = i
+						break
+					}
+				}
+				if got := l.IndexOf(e.goValue()); got != want {
+					return errf("list#%d: IndexOf(%v) = %d, the first element equal to it is at %d (of %d)", n.id, e, got, want, cnt)
+				}
+				if got := l.Contains(e.goValue()); got != (want >= 0) {
+					return errf("list#%d: Contains(%v) = %v, but the element at %d (of %d) holds it", n.id, e, got, at0, cnt)
+				}
+			}
+		}
 		if l.TypeOf(len(n.elems)) != at.TypeUndefined || l.TypeOf(-1) != at.TypeUndefined {
 			return errf("list#%d: TypeOf outside 0..n-1 is not TypeUndefined", n.id)
 		}
@@ -406,6 +425,26 @@ func (h *heap) compareNode(n *mnode) error {
 		}
 		if !found {
 			return errf("object#%d: Values() lacks an entry for field %+q = %v (Values: %s)", n.id, k, e, clip(vals.String(), 200))
+		}
+	}
+	// lookups by value agree with the model for the fields under the first and the last key
+	if ks := sortedFieldKeys(n); len(ks) > 0 {
+		for _, k := range [2]string{ks[0], ks[len(ks)-1]} {
+			e := n.fields[k]
+			if e.k == KFloat && e.f != e.f {
+				continue
+			}
+			if !o.Contains(e.goValue()) {
+				return errf("object#%d: Contains(%v) = false although the field %+q holds it (%d fields)", n.id, e, k, len(ks))
+			}
+			gk, panicked := "", false
+			func() {
+				defer func() { panicked = recover() != nil }()
+				gk = o.KeyOf(e.goValue())
+			}()
+			if h, ok := n.fields[gk]; panicked || !ok || !h.eq(e) {
+				return errf("object#%d: KeyOf(%v) = %+q (panicked: %v), which does not hold that value; %+q does (%d fields)", n.id, e, gk, panicked, k, len(ks))
+			}
 		}
 	}
 	// the caller owns Dict(), Keys() and Values(): changing them must not show in any later observation
